@@ -9,6 +9,7 @@ import (
 	"strings"
 
 	"golang.org/x/tools/go/ssa"
+	"golang.org/x/tools/go/ssa/ssautil"
 )
 
 // ---------------------------------------------------------------------------
@@ -41,7 +42,7 @@ func constInt(v ssa.Value) (int64, bool) {
 		// arithmetic over constants that go/ssa does not fold (operands that were variables
 		// in the source: inlined helper parameters bound to literals)
 		switch v.(type) {
-		case *ssa.BinOp, *ssa.Convert, *ssa.ChangeType, *ssa.UnOp:
+		case *ssa.BinOp, *ssa.Convert, *ssa.ChangeType, *ssa.UnOp, *ssa.Call:
 			if cv, okf := finExpr(v, nil, 0, nil, 0); okf && cv.Kind() == constant.Int {
 				if i, exact := constant.Int64Val(cv); exact {
 					return i, true
@@ -1547,6 +1548,53 @@ func loadValues(v ssa.Value) []ssa.Value {
 	}
 	// find reaching stores: walk backwards from the load within the block,
 	// then through predecessors.
+	// calls that receive the cell's address write it with an unknown value; an address that
+	// goes anywhere else makes every load unknown
+	callWriter := map[ssa.Instruction]bool{}
+	{
+		escapes := false
+		var collect func(addr ssa.Value)
+		collect = func(addr ssa.Value) {
+			for _, use := range usesOf(addr) {
+				switch x := use.(type) {
+				case *ssa.Store:
+					if x.Addr == addr {
+						continue
+					}
+					// boxed into a varargs array: the calls that receive the array
+					if ia, ok := x.Addr.(*ssa.IndexAddr); ok && isVarargsArray(ia.X) {
+						found := false
+						for _, su := range usesOf(ia.X) {
+							if sl, ok := su.(*ssa.Slice); ok {
+								for _, cu := range usesOf(sl) {
+									if ci, ok := cu.(ssa.CallInstruction); ok {
+										callWriter[ci] = true
+										found = true
+									}
+								}
+							}
+						}
+						if !found {
+							escapes = true
+						}
+					} else {
+						escapes = true
+					}
+				case *ssa.UnOp, *ssa.DebugRef, *ssa.MakeClosure:
+				case ssa.CallInstruction:
+					callWriter[x] = true
+				case *ssa.MakeInterface, *ssa.ChangeType, *ssa.Convert:
+					collect(x.(ssa.Value))
+				default:
+					escapes = true
+				}
+			}
+		}
+		collect(cell)
+		if escapes {
+			return []ssa.Value{v}
+		}
+	}
 	seen := map[*ssa.BasicBlock]bool{}
 	var out []ssa.Value
 	var back func(b *ssa.BasicBlock, from int)
@@ -1554,6 +1602,11 @@ func loadValues(v ssa.Value) []ssa.Value {
 		for j := from; j >= 0; j-- {
 			if st, ok := b.Instrs[j].(*ssa.Store); ok && st.Addr == cell {
 				out = append(out, st.Val)
+				return
+			}
+			if callWriter[b.Instrs[j]] {
+				// written through its address by this call: unknown, represented by the load itself
+				out = append(out, v)
 				return
 			}
 		}
@@ -1641,10 +1694,41 @@ func (p *Program) globalIsConstError(g *ssa.Global) bool {
 
 // usesOf lists instructions referring to v.
 func usesOf(v ssa.Value) []ssa.Instruction {
+	if g, ok := v.(*ssa.Global); ok {
+		// go/ssa keeps no referrer lists for package-level variables: scan the program once
+		return globalUses(g)
+	}
 	if r := v.Referrers(); r != nil {
 		return *r
 	}
 	return nil
+}
+
+var globalUseIndex = map[*ssa.Program]map[*ssa.Global][]ssa.Instruction{}
+
+func globalUses(g *ssa.Global) []ssa.Instruction {
+	prog := g.Pkg.Prog
+	idx, ok := globalUseIndex[prog]
+	if !ok {
+		idx = map[*ssa.Global][]ssa.Instruction{}
+		for fn := range ssautil.AllFunctions(prog) {
+			for _, b := range fn.Blocks {
+				for _, in := range b.Instrs {
+					var ops []*ssa.Value
+					for _, op := range in.Operands(ops) {
+						if op == nil || *op == nil {
+							continue
+						}
+						if gg, isG := (*op).(*ssa.Global); isG {
+							idx[gg] = append(idx[gg], in)
+						}
+					}
+				}
+			}
+		}
+		globalUseIndex[prog] = idx
+	}
+	return idx[g]
 }
 
 // defersRecover reports whether some deferred function of fn calls recover().
